@@ -78,6 +78,12 @@ func (eval Evaluator) ExternalProduct(op0 *rlwe.Ciphertext, op1 *Ciphertext, opO
 		eval.BasisExtender.ModDownQPtoQNTT(levelQ, levelP, eval.BuffQP[2].Q, eval.BuffQP[2].P, opOut.Value[1])
 
 	}
+
+	// The product is defined at the level of op1: rows of the receiver above it
+	// (a receiver used before, or op0 itself) are not part of the result.
+	if opOut.Level() > levelQ {
+		opOut.Resize(opOut.Degree(), levelQ)
+	}
 }
 
 func (eval Evaluator) externalProduct32Bit(ct0 *rlwe.Ciphertext, rgsw *Ciphertext, c0, c1 ring.Poly) {
